@@ -350,7 +350,6 @@ namespace ip {
 			p.overhead = 40;
 			p.channel = m_channel;
 			p.hops = m_channel->hops[remote];
-			p.seq_nr = m_next_outgoing_seq++;
 			forward_packet(std::move(p));
 		}
 
